@@ -1,6 +1,7 @@
 /-
   C11 — Identity is unique and stable; is_alive / upgrade tell the truth.
 -/
+import Rsactor.Inv.Handles
 import Rsactor.Inv.End
 import Rsactor.Props.C03
 import Rsactor.Ties.handle_algebra_shape
@@ -68,6 +69,19 @@ theorem upgrade_iff (s s' : Sys) (h : Nat) (hs : step? s (.upgrade h) = some s')
     · cases hs; exact ⟨fun _ => rfl, fun h0 => by omega⟩
     · rename_i hp; cases hs; exact ⟨fun h0 => absurd h0 hp, fun _ => rfl⟩
   · cases hs
+
+/-- `upgrade_truthful_monitor`: in every run, every failed upgrade happened while the script held no strong
+    handle - the very predicate (`Monitor.C11.upgradeTruthful`) that is evaluated on real traces - and the
+    strong handles read off the trace are exactly those of the handle table -/
+theorem upgrade_truthful_monitor (cap : Nat) (sc : Script) (ls : List Label) (s : Sys)
+    (hr : run? (init cap sc) ls = some s) :
+    Monitor.C11.upgradeTruthful s.ev = true ∧
+    (s.ev.foldl Monitor.C11.upStep ([0], true)).1 = strongIds s.handles := by
+  have h := run_inv HInv_step (init cap sc) s ls (HInv_init cap sc) hr
+  have hf := h.fold
+  unfold upFold at hf
+  unfold Monitor.C11.upgradeTruthful
+  rw [hf]; exact ⟨rfl, rfl⟩
 
 -- non-vacuity
 example : ids 5 = [1, 2, 3, 4, 5] := by decide
